@@ -131,7 +131,7 @@ def features(ast) -> tuple:
             b.items and isinstance(b.items[-1], Break) for b in x.branches)
             for x in loop.body.items)
 
-    def w(seq, in_loop, is_top, tail_of_loop, depth):
+    def w(seq, in_loop, is_top, tail_of_loop, depth, tail_via_fork=False):
         items = seq.items
         for i, it in enumerate(items):
             last = i == len(items) - 1
@@ -170,6 +170,8 @@ def features(ast) -> tuple:
                         f.add("break_in_nested")
                     if last and tail_of_loop:
                         f.add("break_loop_tail_of_loop")
+                    if last and tail_via_fork:
+                        f.add("break_loop_tail_of_fork_ending_loop")
                 if depth > 0 and not in_loop:
                     f.add("loop_in_fork")
                 w(it.body, True, False, True, depth)
@@ -187,7 +189,8 @@ def features(ast) -> tuple:
                 for b in it.branches:
                     if b.items and isinstance(b.items[-1], Kill):
                         f.add("kill")
-                    w(b, in_loop, False, False, depth + 1)
+                    w(b, in_loop, False, False, depth + 1,
+                      last and (tail_of_loop or tail_via_fork))
     w(ast, False, True, False, 0)
     names = ps.event_names(ast)
     if any(not (n.startswith("E") and n[1:].isdigit()) for n in names):
